@@ -541,17 +541,30 @@ def doc_delay(ast, k):
 
 
 def c05(tr, acc, case):
-    from vf import policy, programs
-
     spec = tr.spec
     sp = next(s for s in spec["steps"] if s["name"] == "work")
     pol = _policy_parts(sp.get("retry"))
-    bodies = [b for b in tr.bodies() if b["step"] == "work"]
-    if not bodies or any(b["t1"] is None for b in bodies):
-        acc.inconclusive.append("retry family: step body never ran / never exited")
+    groups = defaultdict(list)
+    for b in tr.bodies():
+        if b["step"] == "work":
+            groups[b["uid"]].append(b)
+    if not groups:
+        acc.inconclusive.append("retry family: step body never ran")
         return
+    if len(groups) > 1:
+        acc.hit("queued_items_case")
+    for uid, bodies in groups.items():
+        _c05_one(tr, acc, case, sp, pol, uid, bodies)
+
+
+def _c05_one(tr, acc, case, sp, pol, uid, bodies):
+    from vf import policy, programs
+
+    if any(b["t1"] is None or b["how"] in ("cancel", "open") for b in bodies):
+        return  # the run ended (another item failed it) while this item was in flight
     acc.hit("retry_run")
     s1 = bodies[0]["t0"]
+    ended = tr.outcome is not None
     # --- model: how many executions should there be
     expected = None
     for i, b in enumerate(bodies, start=1):
@@ -568,7 +581,7 @@ def c05(tr, acc, case):
         wait_fixed = pol["wait"]["w"] if pol and pol["wait"]["k"] == "fixed" else 0.0
         stop = True if pol is None else policy.model_stop(pol["stop"], i, elapsed, wait_fixed)
         acc.hit("retry_decision_eval")
-        if pol is not None and pol["stop"]["k"] == "delay":
+        if pol is not None and _mentions(pol["stop"], "delay"):
             acc.hit("stop_after_delay_eval")
         if not retryable:
             acc.hit("non_retryable_eval")
@@ -577,16 +590,21 @@ def c05(tr, acc, case):
             break
     if expected is None:
         expected = len(bodies) + 1  # model says: keep going
-    if len(bodies) != expected:
-        why = "stop_after_delay" if pol and _mentions(pol["stop"], "delay") else "attempts"
+    # fewer executions than the model are only meaningful if the run did not end for another reason first
+    decisive = any(e["type"] == "WorkflowFailedEvent" and f"|{bodies[0]['v']}|" in e["failed"]["exc"] for e in tr.stream) or any(
+        b["failed"] and b["failed"]["step_name"] == "work" and b["failed"]["input_uid"] == uid for b in tr.bodies())
+    # fewer executions than the model only count for the item that decided the run's fate: the others may simply have been
+    # cut short because the run ended first (another item failed it / a handler returned the StopEvent)
+    ended_elsewhere = tr.outcome is not None and not decisive and bodies[-1]["how"].startswith("raise:")
+    if len(bodies) != expected and not (len(bodies) < expected and ended_elsewhere):
         acc.violation({"mech": "execution_count_mismatch", "policy_uses_delay_stop": bool(pol and _mentions(pol["stop"], "delay")),
                        "direction": "fewer" if len(bodies) < expected else "more"},
-                      f"step executed {len(bodies)} times, retry-policy model (observed virtual times) says {expected} ({why}); policy={sp.get('retry')}", case)
+                      f"item uid={uid} executed {len(bodies)} times, retry-policy model (observed virtual times) says {expected}; policy={sp.get('retry')}", case)
     # --- retry_info numbering and last exception
     for i, b in enumerate(bodies):
         acc.hit("retry_info_eval")
         if b["att"] != i:
-            acc.violation({"mech": "retry_number_sequence"}, f"execution #{i + 1} saw retry_number={b['att']}", case)
+            acc.violation({"mech": "retry_number_sequence"}, f"execution #{i + 1} of uid={uid} saw retry_number={b['att']}", case)
         want = None if i == 0 else (bodies[i - 1]["how"][6:] + ":" + f"work|{bodies[i - 1]['v']}|{bodies[i - 1]['att']}")
         if b["lastexc"] != want:
             acc.violation({"mech": "retry_info_last_exception"}, f"execution #{i + 1} saw last_exception={b['lastexc']!r}, previous attempt raised {want!r}", case)
@@ -597,10 +615,10 @@ def c05(tr, acc, case):
     real_elapsed = (last["t1"] - s1) if last["t1"] is not None else None
     reports = []
     for e in tr.stream:
-        if e["type"] == "WorkflowFailedEvent" and e["failed"]["step"] == "work":
+        if e["type"] == "WorkflowFailedEvent" and e["failed"]["step"] == "work" and f"|{last['v']}|" in e["failed"]["exc"]:
             reports.append(("WorkflowFailedEvent", e["failed"]["attempts"], e["failed"]["elapsed"]))
     for b in tr.bodies():
-        if b["failed"] and b["failed"]["step_name"] == "work":
+        if b["failed"] and b["failed"]["step_name"] == "work" and b["failed"]["input_uid"] == uid:
             reports.append(("StepFailedEvent", b["failed"]["attempts"], b["failed"]["elapsed"]))
     for name, att, el in reports:
         acc.hit("failure_report_eval")
@@ -627,7 +645,15 @@ def c06(tr, acc, case):
     pol = _policy_parts(sp.get("retry"))
     if pol is None:
         return
-    bodies = [b for b in tr.bodies() if b["step"] == "work"]
+    groups = defaultdict(list)
+    for b in tr.bodies():
+        if b["step"] == "work":
+            groups[b["uid"]].append(b)
+    for bodies in groups.values():
+        _c06_one(acc, case, pol, bodies)
+
+
+def _c06_one(acc, case, pol, bodies):
     for k in range(1, len(bodies)):
         prev, nxt = bodies[k - 1], bodies[k]
         if prev["t1"] is None:
